@@ -1,8 +1,8 @@
 (* C14 -- totality (partial: the failure modes listed below are excluded by theorems, the remaining ones by the hostile-line search).
    Proved: no substitution can fail for a nullable pattern (every generated pattern is non-nullable; the AS pattern is non-nullable for non-empty
    numerals); the $9$ decoder fails only with ValueError (which _anonymize_value catches) and the $9$ encoder never fails on a pseudonym, for EVERY
-   salt string; the address memo never raises from any reachable state (C03).  Not proved: that a capture group used by replace_matching_item
-   always participates in its match (55 regexes); passlib's totality on its documented domain.
+   salt string; the address memo never raises from any reachable state (C03).  Not proved: passlib's totality on its documented domain (oracle); totality of the
+   address, word and AS-number stages as wired into process_line (their cores are covered by the theorems above and by C03/C10/C11).
    Proved in addition (TotalProofs): _anonymize_value -- the function every recognised secret goes through -- returns a result for EVERY raw value, lookup
    table, reserved list and salt, or reports that the passlib oracle table of the case lacks an entry; it keeps the lookup a table of byte strings. *)
 From Coq Require Import String.
@@ -34,6 +34,16 @@ Proof. exact as_regex_non_nullable. Qed.
 Theorem C14_decryptable_values_are_classified_juniper : forall val d, JunModel.decrypt val = JOk d -> check_format val = F_JUNIPER.
 Proof. exact TotalProofs.decrypt_ok_is_juniper. Qed.
 
+(* the whole secrets stage of a line: every generated line pattern is non-nullable and reads only groups that lie on every path of the pattern
+   (decided on the generated ASTs, sound by lib/RxGroups.always_part_sound), so no substitution and no match.group() can fail *)
+Theorem C14_secrets_stage_never_raises : forall orc reserved salt line lookup,
+  TotalProofs.table_bytes orc -> TotalProofs.table_bytes lookup ->
+  match replace_matching_item orc reserved salt line lookup with
+  | Done r => TotalProofs.table_bytes (snd r)
+  | Raised e => e = lit "ORACLE-MISS"
+  end.
+Proof. exact TotalProofs.replace_matching_item_never_raises. Qed.
+
 Theorem C14_anonymize_value_never_raises : forall orc raw lookup reserved salt,
   TotalProofs.table_bytes orc -> TotalProofs.table_bytes lookup ->
   match anonymize_value orc raw lookup reserved salt with
@@ -49,3 +59,4 @@ Print Assumptions C14_address_memo_never_raises.
 Print Assumptions C14_as_pattern_non_nullable.
 Print Assumptions C14_decryptable_values_are_classified_juniper.
 Print Assumptions C14_anonymize_value_never_raises.
+Print Assumptions C14_secrets_stage_never_raises.
